@@ -216,6 +216,10 @@ fn main() {
             if o.prop == "C02" || o.prop == "C03" {
                 run_rs_stream(&o, &mut rep, "compositions", "two operators stacked — every unary over every unary operator, every binary / lazy operator over a unary one on either side, every unary over a binary one — over the coercion pool (3 values per type, None) with 5 second operands: for C03 the type-error-ness of every outcome, for C02 the whole outcome", true, streams::composition_cases(), if o.prop == "C03" { "typeerr" } else { "full" });
             }
+            if o.prop == "C04" {
+                let cs: Vec<rs::RsCase> = streams::composition_cases().into_iter().filter(|c| c.rules.first().map(|e| format!("{}", e).contains("none")).unwrap_or(false)).collect();
+                run_rs_stream(&o, &mut rep, "compositions", "two operators stacked over a None operand (every unary over every unary operator, every binary / lazy operator over a unary one on either side, every unary over a binary one): a rewrite of two adjacent operators (`!(a < b)` into `a >= b`) must keep what each does with None", true, cs, "full");
+            }
             if o.prop == "C02" || o.prop == "C04" {
                 run_rs_stream(&o, &mut rep, "same-operand", "every binary / lazy operator with both operands resolving to ONE stored value (a op a, facts.a op a, a op b with equal values, :s op :s, w.0 op w.0, g(a) op g(a)) for every value of the boundary pool, None included", true, streams::same_operand_cases(o.tier == "thorough"), "full");
             }
